@@ -64,6 +64,8 @@ func reprV(v sb.V) string {
 		return "{" + strings.Join(parts, ",") + "}"
 	case isNumKind(v.K):
 		return "#" + m.FmtNum(numOf(v))
+	case v.K == "person":
+		return "?worker.Person"
 	}
 	return "?"
 }
@@ -655,7 +657,14 @@ func genIter(t *rapid.T) *c16Iter {
 		}
 		return out
 	}
-	switch rapid.IntRange(0, 11).Draw(t, "ck") {
+	switch rapid.IntRange(0, 12).Draw(t, "ck") {
+	case 12:
+		// a list of structs: membership is decided by the struct, not by the
+		// (empty) string every struct coerces to
+		c = sb.V{K: "slice:any"}
+		for i := 0; i < n; i++ {
+			c.E = append(c.E, sb.V{K: "person", S: "p" + strconv.Itoa(i), N: float64(20 + i)})
+		}
 	case 0:
 		c = sb.V{K: "arr", E: elems("num")}
 	case 1:
@@ -710,7 +719,7 @@ func genIter(t *rapid.T) *c16Iter {
 	for _, e := range inner.E {
 		cs.Probe = append(cs.Probe, e)
 	}
-	cs.Probe = append(cs.Probe, vstr("foreign!"), vnum(-12345))
+	cs.Probe = append(cs.Probe, vstr("foreign!"), vnum(-12345), sb.V{K: "arr", E: []sb.V{vnum(999)}}, sb.V{K: "person", S: "nobody", N: 1}, sb.V{K: "hash", KS: []string{"zz"}, E: []sb.V{vnum(1)}})
 	return cs
 }
 
